@@ -164,6 +164,15 @@ pub fn parse_dynamic_string(input: &str) -> Result<DynamicString, CompilerError>
     let mut chars = input.char_indices().peekable();
 
     while let Some((index, ch)) = chars.next() {
+        // \X stands for the character X itself, as in a line of text
+        // (see `tokenize_inline_content`).
+        if ch == '\\' {
+            if let Some((_, next_ch)) = chars.next() {
+                text.push(if next_ch == 'n' { '\n' } else { next_ch });
+            }
+            continue;
+        }
+
         if ch == '{' {
             let end = find_matching_brace(input, index).ok_or_else(|| {
                 CompilerError::invalid_source("unterminated inline brace expression".to_owned())
@@ -174,7 +183,20 @@ pub fn parse_dynamic_string(input: &str) -> Result<DynamicString, CompilerError>
             }
 
             let inner = &input[index + 1..end];
-            if let Some(sequence) = parse_inline_sequence(inner)? {
+            if let Some((condition, branch_text)) = parse_inline_conditional(&input[index..=end])? {
+                // Same reading as in a line of text: the branches are taken verbatim.
+                let branches = split_top_level_pipe(branch_text);
+                let when_true = tokenize_inline_content(branches[0])?;
+                let when_false = match branches.get(1) {
+                    Some(branch) => Some(tokenize_inline_content(branch)?),
+                    None => None,
+                };
+                parts.push(DynamicStringPart::Conditional {
+                    condition,
+                    when_true,
+                    when_false,
+                });
+            } else if let Some(sequence) = parse_inline_sequence(inner)? {
                 parts.push(DynamicStringPart::Sequence(sequence));
             } else {
                 parts.push(DynamicStringPart::Expression(parse_expression(inner)?));
